@@ -1149,6 +1149,116 @@ def mon_c11(case):
     return None
 
 
+
+def parse_hsnap(snap):
+    """kind 9 snapshot: cap n (k v name)* sorted index names ... wf -> (cap, [(k, v, name)], [index names], wf) or None"""
+    if len(snap) < 3:
+        return None
+    cap, n = snap[0], snap[1]
+    if n < 0 or len(snap) < 2 + 3 * n + 1:
+        return None
+    nodes = [(snap[2 + 3 * i], snap[3 + 3 * i], snap[4 + 3 * i]) for i in range(n)]
+    rest = snap[2 + 3 * n:]
+    return cap, nodes, rest[:-1], rest[-1]
+
+
+def mon_c03(case):
+    """memory safety as the implementation itself shows it: after every call every internal list is a well-formed
+    chain between its sentinels that agrees with its index (audit flag of the hook walk), freed memory is never
+    written (poison intact), every block is returned at drop; for the address-level subject (kind 9) also node
+    identity: an update or a hit moves the same node to the front, an insertion into a full list recycles the least
+    recently used node, an insertion with room links a node that was not linked before, nothing else moves"""
+    kind = case["kind"]
+    if kind not in LAYOUT and kind != 9:
+        return None
+    prev = None
+    for step, (op, out, cb, acct, snap) in enumerate(case["lines"], 1):
+        if not op or op[0] == 98 or out == [-1000]:
+            prev = None if out == [-1000] else prev
+            continue
+        if op[0] == 99:
+            if len(out) >= 6:
+                blocks, poison = out[4], out[5]
+                if poison:
+                    return step, "freed memory was written to (poison damaged)"
+                if blocks:
+                    return step, f"{blocks} heap blocks of the cache were not freed when it was dropped"
+            continue
+        if kind != 9:
+            p = parse_snap(kind, snap)
+            if p is None:
+                return step, "unreadable snapshot"
+            if p[2] != 1:
+                return step, f"after call {op[:4]} an internal list is not a well-formed chain matching its index (structural audit failed)"
+            continue
+        p = parse_hsnap(snap)
+        if p is None:
+            return step, "unreadable snapshot"
+        cap, nodes, idx, wf = p
+        if wf != 1:
+            return step, f"after call {op[:4]} the list is not a well-formed chain matching its index (structural audit failed)"
+        names = [a for _, _, a in nodes]
+        if len(set(names)) != len(names) or any(a < 2 for a in names):
+            return step, f"after call {op[:4]} a node is linked twice or a sentinel is linked as a node: {names}"
+        if sorted(names) != list(idx):
+            return step, f"after call {op[:4]} the index nodes {idx} are not the linked nodes {sorted(names)}"
+        keys = [k for k, _, _ in nodes]
+        if len(set(keys)) != len(keys):
+            return step, f"after call {op[:4]} a key is stored in two nodes: {keys}"
+        if prev is not None:
+            pcap, pnodes = prev
+            pnames = [a for _, _, a in pnodes]
+            pkeys = [k for k, _, _ in pnodes]
+            byk = {k: a for k, _, a in pnodes}
+            c = op[0]
+
+            def put_rule():
+                if pcap > 0 and len(pnodes) == pcap:
+                    want = [pnames[-1]] + pnames[:-1]
+                    if names != want:
+                        return f"insertion into a full list must recycle the least recently used node: nodes {pnames} -> {names}, expected {want}"
+                elif pcap > 0:
+                    if len(names) != len(pnames) + 1 or names[1:] != pnames or names[0] in pnames:
+                        return f"insertion with room must link one node that was not linked before, at the front: nodes {pnames} -> {names}"
+                elif names != pnames:
+                    return f"a put into a cache of capacity 0 must not link anything: nodes {pnames} -> {names}"
+                return None
+
+            msg = None
+            if c in (0, 1, 2) and op[1] in byk:
+                want = [byk[op[1]]] + [a for a in pnames if a != byk[op[1]]]
+                if names != want:
+                    msg = f"call {op[:4]} on a resident key must move its own node to the front: nodes {pnames} -> {names}, expected {want}"
+            elif c == 0:
+                msg = put_rule()
+            elif c in (16, 17, 18) and op[1] not in byk:
+                msg = put_rule()
+            elif c in (1, 2, 3, 4, 5, 8, 9, 10, 13, 15, 16, 17, 18, 19, 20, 21, 22):
+                if names != pnames:
+                    msg = f"call {op[:4]} must not move or relink any node: nodes {pnames} -> {names}"
+            elif c in (12, 14):
+                want = ([pnames[-1]] + pnames[:-1]) if pnames else []
+                if names != want:
+                    msg = f"get_lru must move the last node itself to the front: nodes {pnames} -> {names}, expected {want}"
+            elif c == 6:
+                want = [a for k, _, a in pnodes if k != op[1]]
+                if names != want:
+                    msg = f"remove must unlink exactly the node of the key: nodes {pnames} -> {names}, expected {want}"
+            elif c == 23:
+                if names != pnames[:-1]:
+                    msg = f"remove_lru must unlink exactly the last node: nodes {pnames} -> {names}"
+            elif c == 7:
+                if names:
+                    msg = f"purge left nodes linked: {names}"
+            elif c == 11:
+                want = pnames if op[1] == pcap else pnames[:op[1]]
+                if names != want:
+                    msg = f"resize({op[1]}) must unlink exactly the nodes beyond the new capacity: nodes {pnames} -> {names}, expected {want}"
+            if msg:
+                return step, msg
+        prev = (cap, nodes)
+    return None
+
 def mon_c04(case):
     """ownership ledger of the harness on the implementation alone: nothing dropped twice; after every call the
     tracked keys and values still alive are exactly those of the retained entries; purge retains nothing;
